@@ -69,5 +69,8 @@ class SMMapSet(
         sms = super(SMMapSet, self).rate(by=by)
         sms.sample_start /= by
         sms.sample_length /= by
+        if sms.offset is not None:
+            # #OFFSET is the time of beat 0: it moves with every other time
+            sms.offset /= by
 
         return sms
